@@ -540,6 +540,10 @@ def model_export_to_file(f, model=None, repo=None):
         for m in repo:
             _export_subgraph(m)
             _export(m)
+        # The model is not necessarily one of the models of its repository
+        # (e.g. a model loaded from a string while the meta-model has a global
+        # repository). `_export` skips None and objects already exported.
+        _export(model)
     else:
         _export(model)
 
